@@ -169,11 +169,11 @@ Section Dfs.
       + destruct (IH a Hn HP) as (b & a' & E & He & Hn' & Hok).
         exists b, a'. split; [exact E|]. split; [auto|]. split; [auto|].
         intros Hb. destruct (Hok Hb) as (Hok1 & Hok2). split; [auto|].
-        intros u [<-|Hu]; [|auto].
+        intros u [Euv|Hu]; [subst u|auto].
         apply orb_true_iff in Eskip. destruct Eskip as [E1|E1].
-        * unfold has_edge in E1. intros e He'. destruct (g u); [contradiction|discriminate].
+        * unfold has_edge in E1. intros e He'. destruct (g v); [contradiction|discriminate].
         * apply edges_ok_extends with (a := a); auto. apply HP.
-          destruct (Z.eqb_spec (a u) 0); [discriminate|auto].
+          destruct (Z.eqb_spec (a v) 0); [discriminate|auto].
       + apply orb_false_iff in Eskip. destruct Eskip as [_ E1].
         assert (Ea : a v = 0) by (destruct (Z.eqb_spec (a v) 0); [auto|discriminate]).
         set (a1 := upd a v (2 ^ 63)).
@@ -181,10 +181,11 @@ Section Dfs.
         assert (Ha1v : a1 v = 2 ^ 63) by apply upd_same.
         assert (Hn1 : near a1).
         { intros w Hw. unfold a1, upd in *. destruct (Z.eqb w v); [nia|auto]. }
-        destruct (fill_spec f0 a1 v) as (b & a2 & Ef & (He12 & Hn2 & Hnew) & Hokv); auto; try lia.
-        { rewrite Ha1v; lia. }
-        { rewrite Ha1v. nia. }
-        { pose proof (cz_le_length dom a1). lia. }
+        assert (G1 : Z.of_nat f0 <= F) by lia.
+        assert (G3 : a1 v <> 0) by (rewrite Ha1v; lia).
+        assert (G4 : Z.abs (a1 v - 2 ^ 63) <= (F - Z.of_nat f0) * B) by (rewrite Ha1v; nia).
+        assert (G5 : (cz dom a1 < f0)%nat) by (pose proof (cz_le_length dom a1); lia).
+        destruct (fill_spec f0 a1 v G1 Hn1 G3 G4 G5) as (b & a2 & Ef & (He12 & Hn2 & Hnew) & Hokv).
         rewrite Ef. destruct b.
         * assert (HP2 : forall w, a2 w <> 0 -> edges_ok g a2 w).
           { intros w Hw. destruct (Z.eq_dec (a1 w) 0) as [E|E]; [apply Hnew; auto|].
@@ -194,7 +195,7 @@ Section Dfs.
           destruct (IH a2 Hn2 HP2) as (b & a' & E & He & Hn' & Hok).
           exists b, a'. split; [exact E|]. split; [eauto using extends_trans|]. split; [auto|].
           intros Hb. destruct (Hok Hb) as (Hok1 & Hok2). split; [auto|].
-          intros u [<-|Hu]; [|auto].
+          intros u [Euv|Hu]; [subst u|auto].
           apply edges_ok_extends with (a := a2); auto.
         * exists false, a2. split; [reflexivity|]. split; [eauto using extends_trans|]. split; [auto|discriminate].
   Qed.
